@@ -120,10 +120,14 @@ theorem sim_removetreeBody (fuel : Nat) (t : State) (G : GoodS t) (p np : Str) :
 theorem sim_removetree (fuel : Nat) (t : State) (G : GoodS t) (p : Str) :
     LiftE emb (removetree P fuel (emb t) p) (removetree PR fuel t p) ∧ GoodS (removetree PR fuel t p).1 := by
   simp only [removetree]
-  cases normRes p with
-  | err e => exact ⟨liftE_refl emb t _, G⟩
-  | ok np => exact sim_removetreeBody P emb H fuel t G p np
-
+  have G1 := good_validate t G p
+  rcases H.validatepath t p G with ⟨s, np, hr, hf⟩ | ⟨s, e, e', hr, hf⟩
+  · rw [hr] at G1
+    rw [hr, hf]
+    exact sim_removetreeBody P emb H fuel s G1 p np
+  · rw [hr] at G1
+    rw [hr, hf]
+    exact ⟨liftE_err emb _ _ _, G1⟩
 
 theorem sim_structEntries (a b d : Str) : ∀ (l : List ScanInfo) (q : List Str) (t : State), GoodS t →
     LiftE emb (structEntries P a b d l q (emb t)) (structEntries PR a b d l q t) ∧ GoodS (structEntries PR a b d l q t).1
